@@ -162,6 +162,9 @@ type verifROp struct {
 	Working, Staged string // new working-set spec (updatews / commitws)
 	Meta            int
 	PrevEmpty       bool // pass the empty hash as prevHash instead of the snapshot's address
+	// PrevFresh: the caller keeps its (possibly stale) dataset handles but re-reads the working
+	// set's current address right before the call and passes that as prevHash.
+	PrevFresh bool
 
 	// MetaTag selects the commit metadata (description and pinned dates): "u<n>" is used once,
 	// "p<n>" comes from a tiny pool, so that two calls can build the byte-identical commit.
@@ -198,6 +201,8 @@ func (o *verifROp) String() string {
 		fmt.Fprintf(&b, " ws=%s", verifRWSSym(o.Working, o.Staged, o.Meta))
 		if o.PrevEmpty {
 			b.WriteString(" prev=0")
+		} else if o.PrevFresh {
+			b.WriteString(" prev=reread")
 		}
 	}
 	if o.Fresh {
@@ -237,6 +242,7 @@ type verifROutcome struct {
 	Post     verifRPost // the model after this op (and everything nested in it)
 
 	SnapID, SnapWS string // head symbols of the snapshots used (after an optional refresh)
+	PrevRead       string // PrevFresh: the working-set address the caller re-read right before the call
 	NewWS          string // working-set symbol written ("" if none)
 	Retries        int    // lost swaps
 	LostRace       bool   // rejected, and the dataset it checked was last written by another client
@@ -436,6 +442,8 @@ func (m *verifRModel) eval(op *verifROp, out *verifROutcome, st verifRState, fir
 		prev := out.SnapWS
 		if op.PrevEmpty {
 			prev = ""
+		} else if op.PrevFresh {
+			prev = out.PrevRead
 		}
 		if st[op.WS] != prev {
 			return verifREvalFail, "lock", nil
@@ -451,6 +459,8 @@ func (m *verifRModel) eval(op *verifROp, out *verifROutcome, st verifRState, fir
 		prev := out.SnapID
 		if op.PrevEmpty {
 			prev = ""
+		} else if op.PrevFresh {
+			prev = out.PrevRead
 		}
 		if cur != prev {
 			return verifREvalFail, "lock", nil
@@ -546,6 +556,13 @@ func (m *verifRModel) predict(op *verifROp) *verifROutcome {
 	if op.Kind == verifRCommitWS {
 		out.SnapWS = cl.snap[op.WS]
 	}
+	if op.PrevFresh {
+		if op.Kind == verifRCommitWS {
+			out.PrevRead = m.viewOf(op.Client)[op.WS]
+		} else if op.Kind == verifRUpdateWS {
+			out.PrevRead = m.viewOf(op.Client)[op.ID]
+		}
+	}
 	out.Forcing = op.Kind == verifRSetHead || op.Force || op.Amend != ""
 
 	// checks made against the snapshot before the optimistic loop starts
@@ -591,6 +608,9 @@ func (m *verifRModel) predict(op *verifROp) *verifROutcome {
 				chk, want := op.ID, out.SnapID
 				if errc == "lock" && op.Kind == verifRCommitWS {
 					chk, want = op.WS, out.SnapWS
+				}
+				if errc == "lock" && op.PrevFresh && !op.PrevEmpty {
+					want = out.PrevRead
 				}
 				m.noteLostRace(op, out, chk, want)
 			}
